@@ -77,8 +77,21 @@ pub fn requests(t0: u64, t1: u64, stat: u8, lyc: u8) -> (u8, u64) {
 pub fn run(ctx: &mut Ctx) {
   let thorough = ctx.thorough();
   let seed = ctx.seed;
-  let vram = vec![0u8; 0x2000].into_boxed_slice();
-  let oam = vec![0u8; 0xa0].into_boxed_slice();
+  // video RAM and OAM full of random bytes, objects on most lines: how long the controller
+  // stays in a mode must not depend on what it has to draw (the statement gives fixed
+  // lengths; an all-zero OAM would hide an implementation that stretches mode 3 per object)
+  let (vram, oam) = {
+    let mut r = Rng::from(&[seed, 0x14b]);
+    let v: Vec<u8> = (0..0x2000).map(|_| r.u8()).collect();
+    let mut o: Vec<u8> = (0..0xa0).map(|_| r.u8()).collect();
+    for k in 0..40 {
+      o[k * 4] = 16 + ((k * 37) % 150) as u8; // Y: spread over the visible lines, ties included
+      if k % 3 == 0 {
+        o[k * 4] = 16 + ((k / 3) % 4) as u8 * 8; // ten and more objects on the first lines
+      }
+    }
+    (v.into_boxed_slice(), o.into_boxed_slice())
+  };
   let mut evaluations = 0u64;
   let mut frames = 0u64;
   let mut lines_seen = [false; 154];
@@ -109,7 +122,8 @@ pub fn run(ctx: &mut Ctx) {
       let mut rng = Rng::from(&[seed, 14, mask as u64, lyc as u64]);
       for part in 0..nparts {
         let mut v = VideoState::new();
-        v.set_lcd_control(0x91);
+        // LCD and background on; the other bits (objects, 8x16, window, maps, addressing) vary
+        v.set_lcd_control(if part == 0 { 0x91 } else { 0x81 | (rng.u8() & 0x7e) });
         let f0 = v.set_lcd_status(stat).as_u8();
         let f1 = v.set_ly_compare(lyc).as_u8();
         let _ = (f0, f1); // requests made by the writes themselves are C10's subject
